@@ -1,4 +1,99 @@
 import OtelVerif.Model.C04
-/-! C04 property theorems (stub) -/
+import OtelVerif.Lemmas.C04Term
+/-!
+# C04 — exporter batching conserves telemetry, keeps identity, respects size limits
+
+Property theorems only.  `Model/C04.lean` is the repaired code of /tmp/wt-C04 (four `fix:` commits);
+`Gen.C04Shape` is regenerated from the `*_batch.go` files on every run.
+-/
 namespace OtelVerif.C04
+open OtelVerif.Payload OtelVerif.Gen
+
+/-! ## the model has the shape of the source (translator tie) -/
+
+/-- `split()` in all four files has the `rmSize == 0` branch the model's loop has -/
+theorem C04_shape_split_handles_no_progress : C04Shape.splitHandlesNoProgress = true := by decide
+
+/-! ## conservation with full context -/
+
+def optFlat {P β : Type} (flat : P → List β) (r : Option (Req P)) : List β :=
+  match r with
+  | some r => flat r.p
+  | none => []
+
+theorem mergeSplit_perm_aux {P β : Type} (o : Ops P) (flat : P → List β) (hc : Conserves o flat) (max : Int)
+    (r : Req P) (out : List (Req P)) (h : (if max == 0 then some [r] else split o max r) = some out) :
+    (flatReqs flat out).Perm (flat r.p) := by
+  split at h
+  · injection h with h
+    subst h
+    rw [flatReqs_single]
+  · have := splitLoop_perm o flat hc max _ _ [] out h
+    simpa [flatReqs] using this
+
+theorem mergeSplit_perm {P β : Type} (o : Ops P) (flat : P → List β) (hc : Conserves o flat) (max : Int)
+    (r1 : Req P) (r2 : Option (Req P)) (out : List (Req P)) (h : mergeSplit o max r1 r2 = some out) :
+    (flatReqs flat out).Perm (flat r1.p ++ optFlat flat r2) := by
+  cases r2 with
+  | none =>
+    have := mergeSplit_perm_aux o flat hc max r1 out h
+    simpa [optFlat] using this
+  | some r2 =>
+    have := mergeSplit_perm_aux o flat hc max (mergeTo o r1 r2) out h
+    simpa [optFlat, mergeTo, hc.append] using this
+
+/-- logs, traces, profiles: for every sizer, every limit, every pair of requests, whatever `MergeSplit` returns holds
+exactly the records that came in, each with its resource, resource schema URL, scope and scope schema URL -/
+theorem C04_conserve (sz : Sizer) (max : Int) (r1 : Req (List Res)) (r2 : Option (Req (List Res))) (out : List (Req (List Res)))
+    (h : mergeSplit (logsOps sz) max r1 r2 = some out) :
+    (flatReqs flatten out).Perm (flatten r1.p ++ optFlat flatten r2) :=
+  mergeSplit_perm _ _ (logs_conserves sz) max r1 r2 out h
+
+/-- metrics (repaired `extract*DataPoints`): every data point also keeps its metric's name, unit, description, type,
+temporality, monotonicity and metadata -/
+theorem C04_conserve_metrics (sz : Sizer) (max : Int) (r1 : Req (List MRes)) (r2 : Option (Req (List MRes)))
+    (out : List (Req (List MRes))) (h : mergeSplit (metricsOps true sz) max r1 r2 = some out) :
+    (flatReqs mflatten out).Perm (mflatten r1.p ++ optFlat mflatten r2) :=
+  mergeSplit_perm _ _ (metrics_conserves sz) max r1 r2 out h
+
+/-- the same statement for the pinned `extract*DataPoints` (`metricFragmentKeepsIdentity = false`) -/
+def C04_conserve_metrics_pinned_full : Prop :=
+  ∀ (sz : Sizer) (max : Int) (r1 : Req (List MRes)) (out : List (Req (List MRes))),
+    mergeSplit (metricsOps false sz) max r1 none = some out → (flatReqs mflatten out).Perm (mflatten r1.p)
+
+/-- the design-time witness: one sum with 4 points, `max_size = 3` items -/
+def pinnedWitness : List MRes :=
+  [⟨⟨1, 2, 0⟩, [⟨⟨3, 0, 0, 4, 0⟩, [⟨⟨5, 6, 7, 2, 1, 1, 8, 0, 0⟩, [⟨10, 0, 1⟩, ⟨11, 0, 1⟩, ⟨12, 0, 1⟩, ⟨13, 0, 1⟩]⟩]⟩]⟩]
+
+theorem C04_conserve_metrics_pinned_full_fails : ¬ C04_conserve_metrics_pinned_full := by
+  intro h
+  have hp := h ⟨false⟩ 3 { p := pinnedWitness } _ rfl
+  have hm : ((⟨1, 2, 0⟩, ⟨3, 0, 0, 4, 0⟩, ⟨0, 0, 0, 2, 0, 0, 0, 0, 0⟩, ⟨10, 0, 1⟩) : MCtx) ∈ mflatten pinnedWitness :=
+    hp.subset (by decide)
+  revert hm
+  decide
+
+/-! ## termination -/
+
+/-- `split` (hence `MergeSplit`) ends for every request, limit and sizer: `nodes + 1` iterations always suffice -/
+theorem C04_terminates (sz : Sizer) (max : Int) (req : Req (List Res)) : (split (logsOps sz) max req).isSome = true :=
+  splitLoop_isSome _ (logs_shrinks sz) max _ req [] (Nat.lt_succ_self _)
+
+theorem C04_terminates_metrics (keep : Bool) (sz : Sizer) (max : Int) (req : Req (List MRes)) :
+    (split (metricsOps keep sz) max req).isSome = true :=
+  splitLoop_isSome _ (metrics_shrinks keep sz) max _ req [] (Nat.lt_succ_self _)
+
+theorem C04_mergeSplit_total (sz : Sizer) (max : Int) (r1 : Req (List Res)) (r2 : Option (Req (List Res))) :
+    (mergeSplit (logsOps sz) max r1 r2).isSome = true := by
+  simp only [mergeSplit]
+  split
+  · rfl
+  · exact C04_terminates sz max _
+
+/-- non-vacuity (the design-time witness of the non-terminating loop): one 500-byte record, then a small one,
+`max_size = 100` bytes: the oversized record leaves alone, the rest follows -/
+example :
+    (mergeSplit (logsOps ⟨true⟩) 100 { p := [⟨⟨1, 0, 11⟩, [⟨⟨2, 0, 0, 0, 6⟩, [⟨10, 515, 1⟩, ⟨11, 15, 1⟩]⟩]⟩] } none).map
+      (fun out => out.map (fun r => (flatten r.p).map (·.2.2.id))) = some [[10], [11]] := by decide
+
 end OtelVerif.C04
